@@ -27,7 +27,7 @@ ASSUMPTIONS = [
 ]
 MINIMUM = {"distinct": 300, "legacy_cases": 200, "golden_checked": 20, "foreign_versions": 255}
 
-N = {"quick": 6000, "thorough": 80000}
+N = {"quick": 6000, "thorough": 250000}
 NSH = {"quick": 12, "thorough": 30}
 GOLDEN = os.path.join(core.VERIF, "ref", "golden.json")
 PYENV = "/root/.pyenv/versions"
